@@ -1755,11 +1755,16 @@ def rule_r8(chk, prog):
             # first / last character tests
             for base in texts:
                 if t in (f"{base}[0] == {q!r}", f"{base}.startswith({q!r})",
-                         f"{q!r} == {base}[0]"):
+                         f"{q!r} == {base}[0]", f"{base}[:1] == {q!r}",
+                         f"{base}[0:1] == {q!r}"):
                     first = True
                 if t in (f"{base}[-1] == {q!r}", f"{base}.endswith({q!r})",
-                         f"{q!r} == {base}[-1]"):
+                         f"{q!r} == {base}[-1]", f"{base}[-1:] == {q!r}"):
                     last = True
+                if t in (f"{base}[0] == {base}[-1] == {q!r}",
+                         f"{base}[0] == {q!r} == {base}[-1]",
+                         f"{q!r} == {base}[0] == {base}[-1]"):
+                    first = last = True
             # regular expression
             call = None
             if isinstance(c, ast.Compare) and len(c.ops) == 1 and isinstance(
